@@ -1781,16 +1781,15 @@ class MindsDBParser(Parser):
         return p[0]
 
     @_('identifier DOT identifier',
-       'identifier DOT integer',
+       'identifier DOT INTEGER',
        'identifier DOT dquote_string',
        'identifier DOT star')
     def identifier(self, p):
         node = p[0]
         if isinstance(p[2], Star):
             node.parts.append(p[2])
-        elif isinstance(p[2], int):
-            node.parts.append(str(p[2]))
         elif isinstance(p[2], str):
+            # a name part written in digits (t.007) is taken as it is written
             if p[2] == '':
                 raise ParsingException('Identifier can not be an empty string')
             node.parts.append(p[2])
